@@ -67,7 +67,10 @@ def _quiet():
     return contextlib.redirect_stdout(io.StringIO())
 
 
-TARGETS = ("gauss", "hole", "corner", "tiny", "nan", "posinf", "mixed")
+TARGETS = ("gauss", "hole", "corner", "tiny", "nan", "posinf", "mixed")       # all need n_dim = 2
+# ensemble shapes (n_dim, n_particles or None = the package default 2*n_dim, n_steps, n_max_steps); the first is the standard one
+STD_SHAPE = (2, 16, 1, 2)
+TINY_SHAPES = ((1, None, 2, 4), (2, None, 2, 4), (1, 3, 1, 2), (1, 4, 2, 4))
 NONFINITE_TARGETS = ("nan", "posinf", "mixed")
 
 
@@ -96,6 +99,8 @@ class CountingLike:
             self.f = self.f_corner
         elif target == "tiny":
             self.f = self.f_tiny
+        elif target == "edge":
+            self.f = self.f_edge
         elif target in NONFINITE_TARGETS:
             self.f = {"nan": self.f_nan, "posinf": self.f_posinf, "mixed": self.f_mixed}[target]
 
@@ -110,6 +115,12 @@ class CountingLike:
     @staticmethod
     def f_corner(x):
         return -0.5 * float(np.sum((x - 2.9) ** 2)) * 4.0
+
+    @staticmethod
+    def f_edge(x):
+        """narrow Gaussian centred ON the corner u = 0 of the prior cube (any n_dim): with a tiny ensemble whole steps have every
+        proposal outside the cube"""
+        return -0.5 * float(np.sum((x + 3.0) ** 2)) / 0.09
 
     @staticmethod
     def f_nan(x):
@@ -334,12 +345,12 @@ STRATEGIES = {
 }
 
 
-def _run(strategy, kernel, blobs, seed, n_iter=None, n_total=48, hole="gauss", observe=False):
+def _run(strategy, kernel, blobs, seed, n_iter=None, n_total=48, hole="gauss", observe=False, shape=None):
     with int_pool_patched():
-        return _run_inner(strategy, kernel, blobs, seed, n_iter, n_total, hole, observe)
+        return _run_inner(strategy, kernel, blobs, seed, n_iter, n_total, hole, observe, tuple(shape) if shape else STD_SHAPE)
 
 
-def _run_inner(strategy, kernel, blobs, seed, n_iter=None, n_total=48, hole="gauss", observe=False):
+def _run_inner(strategy, kernel, blobs, seed, n_iter=None, n_total=48, hole="gauss", observe=False, shape=STD_SHAPE):
     """One seeded run driven through the PUBLIC API only: the constructor, `Sampler.sample()`, `Sampler.state` (StateManager's public
     set_current / get_history / compute_logw_and_logz) and an instrumented USER likelihood.  The state is initialised the way a fresh run
     does (iter, calls, beta, logz) through the public StateManager; the loop is the harness's own fixed protocol (iterate until beta has
@@ -353,9 +364,10 @@ def _run_inner(strategy, kernel, blobs, seed, n_iter=None, n_total=48, hole="gau
     pool = st["pool"]
     if isinstance(pool, type) or callable(pool) and not hasattr(pool, "map"):
         pool = pool()
-    s = Sampler(lambda u: 6.0 * u - 3.0, like.vector if st["vectorize"] else like.scalar, 2, n_particles=16,
+    d_, n_, ns_, nm_ = shape
+    s = Sampler(lambda u: 6.0 * u - 3.0, like.vector if st["vectorize"] else like.scalar, d_, n_particles=n_,
                 clustering=False, sample=kernel, resample="mult", vectorize=st["vectorize"], pool=pool,
-                blobs_dtype=("f8" if blobs else None), n_steps=1, n_max_steps=2)
+                blobs_dtype=("f8" if blobs else None), n_steps=ns_, n_max_steps=nm_)
     trace = []
     batches = []
     if observe:
@@ -475,15 +487,16 @@ def run_property_violations(cases, strategies=None, oracles=("calls", "transpare
     for case in cases:
         kernel, blobs, seed = case[:3]
         target = _case_target(case)
+        shape = tuple(case[4]) if len(case) > 4 and case[4] else STD_SHAPE
         names = [n for n in (strategies or STRATEGIES) if not (n.startswith("vector") and blobs)]
         if "scalar" not in names:
             names = ["scalar"] + names
         names.sort(key=lambda n: n != "scalar")
         ref = None
         for name in names:
-            base = {"strategy": name, "kernel": kernel, "blobs": blobs, "seed": seed, "target": target}
+            base = {"strategy": name, "kernel": kernel, "blobs": blobs, "seed": seed, "target": target, "shape": list(shape)}
             try:
-                fp, trace = _run(name, kernel, blobs, seed, hole=target)
+                fp, trace = _run(name, kernel, blobs, seed, hole=target, shape=shape)
             except Exception as e:  # noqa
                 if name != "scalar" and ref is not None and "transparency" in oracles:
                     bad.append(dict(base, oracle="transparency", what=f"scalar evaluation runs, strategy `{name}` raised {type(e).__name__}: {e}"))
@@ -515,11 +528,15 @@ def calls_correspondence(drv, cases, corr):
     for case in cases:
         name, kernel, blobs, seed = case[:4]
         target = case[4] if len(case) > 4 else "gauss"
+        shape = tuple(case[5]) if len(case) > 5 else STD_SHAPE
+        d_, n_, ns_, nm_ = shape
+        n_ = 2 * d_ if n_ is None else n_
         try:
-            _, trace = _run(name, kernel, blobs, seed, hole=target, observe=True)
+            _, trace = _run(name, kernel, blobs, seed, hole=target, observe=True, shape=shape)
         except Exception as e:  # noqa
-            if target in NONFINITE_TARGETS:
-                corr.count("non-finite target: run raised " + type(e).__name__)     # degenerate weights may abort a run; not a statement of C13
+            if target in NONFINITE_TARGETS or (shape != STD_SHAPE and type(e).__name__ == "LinAlgError"):
+                # degenerate weights / a collapsed 2-4 particle ensemble may abort a run; not a statement of C13
+                corr.count("degenerate case: run raised " + type(e).__name__)
             else:
                 corr.disagree(input=case, impl=f"run raised {type(e).__name__}: {e}", model="runs")
             continue
@@ -532,12 +549,14 @@ def calls_correspondence(drv, cases, corr):
             if beta != 0.0 and nb - nb_prev != steps:
                 corr.disagree(input=case, impl=f"iteration {k + 1}: {nb - nb_prev} batches evaluated in {steps} steps", model="one batch per step")
             nb_prev = nb
-            if beta != 0.0 and not (min(1 * 2, 2 * 2) <= steps <= max(1, 2 * 2)):     # n_steps=1, n_max_steps=2, d=2 in _run
+            if beta != 0.0 and not (min(ns_ * d_, nm_ * d_) <= steps <= max(1, nm_ * d_)):
                 corr.disagree(input=case, impl=f"iteration {k + 1}: {steps} accept/reject steps",
-                              model="within [2, 4] (C13_steps_bounded_from_start)")
-            lines.append(f"calls.run np=16 nw=16 ops={';'.join(ops)}")
+                              model=f"within [{min(ns_ * d_, nm_ * d_)}, {max(1, nm_ * d_)}] (C13_steps_bounded_from_start)")
+            lines.append(f"calls.run np={n_} nw={n_} ops={';'.join(ops)}")
             recs.append((name, kernel, blobs, seed, k, calls, counted, len(ops) > 1 and "w" in ops and any(o != "w" for o in ops)))
-            corr.count("target:" + target) if k == 0 else None
+            if k == 0:
+                corr.count("target:" + target)
+                corr.count(f"shape:d={d_} n={n_}{' (default)' if shape[1] is None else ''}")
     for (name, kernel, blobs, seed, k, calls, counted, nontriv), line, ans in zip(recs, lines, drv.batch(lines)):
         corr.case(line + name + kernel, nontriv or name != "scalar")
         corr.count(name)
@@ -876,7 +895,8 @@ def _full_run(spec, workdir, observe=True):
         pool = st["pool"]
         if isinstance(pool, type) or callable(pool) and not hasattr(pool, "map"):
             pool = pool()
-        s = Sampler(lambda u: 6.0 * u - 3.0, like.vector if st["vectorize"] else like.scalar, 2, n_particles=spec["n"], clustering=False,
+        s = Sampler(lambda u: 6.0 * u - 3.0, like.vector if st["vectorize"] else like.scalar, spec.get("d", 2),
+                    n_particles=(None if spec.get("default_n") else spec["n"]), clustering=False,
                     sample=spec["kernel"], resample=spec.get("resample", "mult"), vectorize=st["vectorize"], pool=pool,
                     blobs_dtype=("f8" if spec["blobs"] else None), n_steps=spec["ns"], n_max_steps=spec["nm"],
                     output_dir=workdir, output_label="c13")
@@ -1025,13 +1045,17 @@ def whole_run_correspondence(drv, specs, corr):
     lines, meta, start_lines = [], [], []
     for spec, recs, err in _whole_runs(specs):
         if err is not None:
-            corr.disagree(input=spec, impl=f"run raised {type(err).__name__}: {err}", model="runs")
+            if spec.get("default_n") and type(err).__name__ == "LinAlgError":
+                # a 2-4 particle ensemble can collapse onto one point (singular covariance): a limit of the sampler, not a statement of C13
+                corr.count("tiny ensemble: run aborted with LinAlgError")
+            else:
+                corr.disagree(input=spec, impl=f"run raised {type(err).__name__}: {err}", model="runs")
             continue
         for b in _whole_run_property(spec, recs):
             corr.disagree(input=spec, impl=b["what"], model="calls == points evaluated (C13_run_calls_evaluated)", kind="property")
         for rec in recs:
             ops = _kinds(rec)
-            d = 2
+            d = spec.get("d", 2)
             start_lines.append((f"start.kind path={int(rec['have_path'])} hist={rec['hist_before']}", rec["start_kind"], spec))
             corr.count("warmup_redraws", sum(int(o[2:]) for o in ops if o.startswith("w:")))
             for k, op in enumerate(ops):
@@ -1056,7 +1080,7 @@ def whole_run_correspondence(drv, specs, corr):
         if k == nops - 1:
             corr.count("runs")
             corr.count("target:" + spec["target"])
-            corr.count(f"n={spec['n']} ns={spec['ns']} nm={spec['nm']}")
+            corr.count(f"d={spec.get('d', 2)} n={spec['n']}{' (default)' if spec.get('default_n') else ''} ns={spec['ns']} nm={spec['nm']}")
         if mcalls != calls_k:
             corr.disagree(input=line, impl={"calls": calls_k}, model=ans, spec=spec, kind="model-vs-code")
         elif msizes != rec["sizes"][:nb] or (k == nops - 1 and len(rec["sizes"]) != nb):
@@ -1089,6 +1113,12 @@ def _whole_run_specs(rng, tier):
         specs.append({"strategy": strategy, "kernel": kernel, "blobs": blobs, "target": target, "resume": resume, "seed": rng.randrange(2 ** 31),
                       "n": rng.choice([15, 16, 12]), "ns": ns, "nm": rng.choice([ns, ns + 1, 2 * ns, 6]), "n_total": rng.choice([40, 64]),
                       "save_every": rng.choice([1, 2, 3]), "resample": rng.choice(["mult", "syst"])})
+    # tiny ensembles (the package default n_particles = 2*n_dim), RWM, target on the corner: steps in which EVERY proposal leaves the cube
+    for strategy, blobs, d, resume in [("scalar", False, 1, None), ("pool=3", True, 2, "mid"), ("vector", False, 1, "second-run"),
+                                       ("mp-like", True, 1, "load_state")]:
+        specs.append({"strategy": strategy, "kernel": "rwm", "blobs": blobs, "target": "edge", "resume": resume, "seed": rng.randrange(2 ** 31),
+                      "d": d, "n": 2 * d, "default_n": True, "ns": 2, "nm": 4, "n_total": rng.choice([24, 48]), "save_every": rng.choice([2, 3]),
+                      "resample": rng.choice(["mult", "syst"])})
     return specs
 
 
@@ -1179,18 +1209,20 @@ def correspond(tier):
              ("tpcn", False, rng.randrange(2 ** 31), "corner"), ("rwm", False, rng.randrange(2 ** 31), "tiny"),
              ("tpcn", False, rng.randrange(2 ** 31), "nan"), ("rwm", True, rng.randrange(2 ** 31), "mixed"),
              ("tpcn", rng.random() < 0.5, rng.randrange(2 ** 31), "posinf")]
+    cases += [("rwm", b, rng.randrange(2 ** 31), "edge", sh) for b, sh in zip((False, True), TINY_SHAPES)]
     if tier == "thorough":
         cases += [(k, b, rng.randrange(2 ** 31), h) for k in ("tpcn", "rwm") for b in (False, True) for h in TARGETS][::2]
     subset = ["vector", "vector+sized", "vector+pool=3", "pool=3", "pool=True", "reversed", "shuffled", "threaded", "mp-like",
               "executor-newest-first", "threadpool"]
     for i, case in enumerate(cases):
         # quick tier: the first two cases pair EVERY strategy with scalar evaluation, the others a representative subset
-        names = list(STRATEGIES) if (tier == "thorough" or i < 2) else subset
+        names = list(STRATEGIES) if (tier == "thorough" or i < 2) else (subset[:6] if len(case) > 4 else subset)
         for name in names:
             if name != "scalar" and not (name.startswith("vector") and case[1]):
                 c.case((case, name), True)
                 c.count(name)
         c.count("target:" + case[3])
+        c.count("shape:" + (str(tuple(case[4])) if len(case) > 4 else "standard"))
         for b in run_property_violations([case], strategies=names):
             c.disagree(input=case, impl=b["what"], model="C13_run_strategy_independent / C13_run_calls_evaluated", kind="property")
     c.sample({"paired strategies": list(STRATEGIES), "case": cases[0]})
@@ -1204,6 +1236,8 @@ def correspond(tier):
                [("scalar", "rwm", False), ("vector", "tpcn", False), ("pool=3", "tpcn", True), ("mp-like", "rwm", True), ("vector+sized", "rwm", False)]]
     ccases += [(n, k, b, rng.randrange(2 ** 31), t) for n, k, b, t in
                [("vector", "tpcn", False, "nan"), ("pool=3", "rwm", True, "mixed"), ("scalar", "tpcn", False, "posinf"), ("vector+sized", "rwm", False, "mixed")]]
+    ccases += [(n, "rwm", b, rng.randrange(2 ** 31), "edge", sh) for (n, b), sh in
+               zip([("scalar", False), ("vector", False), ("pool=3", True), ("reversed", True)], TINY_SHAPES)]
     if tier == "thorough":
         ccases += [(n, k, b, rng.randrange(2 ** 31)) for n in STRATEGIES for k in ("tpcn", "rwm") for b in (False, True) if not (n.startswith("vector") and b)]
     calls_correspondence(drv, ccases, c2)
@@ -1221,13 +1255,21 @@ def search(tier, hints):
     A disagreement between model and code is NOT a failing input; it only triggers this exploration: every strategy (scalar,
     vectorised, vectorised+pool, int pools of several sizes, pool doubles, real thread pools / executors) x both kernels x blobs x
     targets {interior Gaussian, -inf region (warm-up replacement), narrow corner target (proposals leave the prior cube), tiny support
-    (warm-up batches without a finite draw: the redraw loop), and likelihoods with NON-FINITE values: a NaN region, a +inf region, NaN / -inf /
+    (warm-up batches without a finite draw: the redraw loop), tiny ensembles (n_particles = the default 2*n_dim with n_dim = 1, 2; RWM; target on
+    the corner: steps in which every proposal leaves the cube), and likelihoods with NON-FINITE values: a NaN region, a +inf region, NaN / -inf /
     +inf mixed — degenerate runs, but bit-identical under every strategy on correct code (NaN positions compared, payloads not)}, then complete runs incl. runs resumed from a checkpoint (by path and by
     load_state) and a second run() on the same sampler.  Nothing found => the verdict is `no-failing-input-found`."""
     rng = common.rng_for("C13.search")
     hinted = [h.get("strategy") or (h.get("spec") or {}).get("strategy") for h in hints if isinstance(h, dict)]
     order = [n for n in STRATEGIES if n in hinted] + [n for n in STRATEGIES if n not in hinted]
     found = []
+    few = [n for n in order if n in ("scalar", "vector", "pool=3", "reversed", "vector+sized", "mp-like")]
+    for shape in TINY_SHAPES:                     # tiny ensembles, RWM, mass on the corner: whole steps with every proposal out of the cube
+        for blobs in (False, True):
+            for _ in range(4):
+                found += run_property_violations([("rwm", blobs, rng.randrange(2 ** 31), "edge", shape)], strategies=few)
+            if len(found) >= 3:
+                return found[:5]
     for target in ("tiny", "nan", "mixed", "corner", "hole", "posinf", "gauss"):
         combos = [("tpcn", False), ("rwm", True)] if target in NONFINITE_TARGETS else [(k, b) for k in ("tpcn", "rwm") for b in (False, True)]
         for kernel, blobs in combos:
@@ -1245,9 +1287,10 @@ def replay(obj):
         from . import witnesses
         return witnesses.ALL[f["replay"]["witness"]]()
     if f.get("level") == "whole-run":
-        spec = {k: f[k] for k in ("strategy", "kernel", "blobs", "target", "resume", "seed", "n", "ns", "nm", "n_total", "save_every", "resample")}
+        spec = {k: f[k] for k in ("strategy", "kernel", "blobs", "target", "resume", "seed", "n", "ns", "nm", "n_total", "save_every", "resample",
+                                  "d", "default_n") if k in f}
         b = whole_run_property_violations([spec])
         return {"fails": bool(b), "detail": b[:1]}
-    b = [x for x in run_property_violations([(f["kernel"], f["blobs"], f["seed"], f.get("target", "gauss"))], strategies=[f["strategy"]])
+    b = [x for x in run_property_violations([(f["kernel"], f["blobs"], f["seed"], f.get("target", "gauss"), f.get("shape"))], strategies=[f["strategy"]])
          if x["strategy"] == f["strategy"]]
     return {"fails": bool(b), "detail": b[:1]}
